@@ -174,3 +174,111 @@ package ugm
 //@   props C05
 //@   mode nopanic=off
 //@   ensures[installed] m.userLimits == newUserLimits && m.groupLimits == newGroupLimits && m.userWildCardLimitsConfig == newUserWildCardLimitsConfig && m.groupWildCardLimitsConfig == newGroupWildCardLimitsConfig && m.configuredGroups == newConfiguredGroups
+
+// ---------------------------------------------------------------- user / group tracker: the layer between the manager and the tracker tree
+// every wrapper hands its own root tracker the split of exactly the queue path it was given, the same application,
+// usage and flags, with its own tracking type, exactly once - a slip here charges the wrong path or the wrong ledger
+//@ func (ut *UserTracker) increaseTrackedResource(queuePath string, applicationID string, usage *resources.Resource)
+//@   props C05 C03
+//@   sweep
+//@   mode nopanic=off
+//@   at[fwd] call ugm.QueueTracker.increaseTrackedResource#1: assert arg0 == ut.queueTracker && arg1 == splitof(queuePath, ".") && arg2 == applicationID && arg3 == 1 && arg4 == usage
+//@   ensures[once] ncalls(ugm.QueueTracker.increaseTrackedResource) == 1
+
+//@ func (ut *UserTracker) decreaseTrackedResource(queuePath string, applicationID string, usage *resources.Resource, removeApp bool) (removeQT bool)
+//@   props C05 C03
+//@   sweep
+//@   mode nopanic=off
+//@   at[fwd] call ugm.QueueTracker.decreaseTrackedResource#1: assert arg0 == ut.queueTracker && arg1 == splitof(queuePath, ".") && arg2 == applicationID && arg3 == usage && arg4 == removeApp
+//@   at[answer] call ugm.QueueTracker.decreaseTrackedResource#1 after: assume ret == dectree(ut.queueTracker)
+//@   ensures[once] ncalls(ugm.QueueTracker.decreaseTrackedResource) == 1
+//@   ensures[answer] removeQT == dectree(ut.queueTracker)
+//@   ensures[unlink] removeApp ==> !(applicationID in ut.appGroupTrackers)
+//@   ensures[keep] !removeApp ==> (forall a string :: (a in ut.appGroupTrackers) == old(a in ut.appGroupTrackers) && ut.appGroupTrackers[a] == old(ut.appGroupTrackers[a]))
+//@ spec abstract dectree(q *QueueTracker) bool
+
+//@ func (gt *GroupTracker) increaseTrackedResource(queuePath, applicationID string, usage *resources.Resource, user string)
+//@   props C05 C03
+//@   sweep
+//@   mode nopanic=off
+//@   at[fwd] call ugm.QueueTracker.increaseTrackedResource#1: assert arg0 == gt.queueTracker && arg1 == splitof(queuePath, ".") && arg2 == applicationID && arg3 == 2 && arg4 == usage
+//@   ensures[once] gt != nil ==> ncalls(ugm.QueueTracker.increaseTrackedResource) == 1
+//@   ensures[owner] gt != nil ==> (applicationID in gt.applications) && gt.applications[applicationID] == user
+
+//@ func (gt *GroupTracker) decreaseTrackedResource(queuePath, applicationID string, usage *resources.Resource, removeApp bool) (removeQT bool)
+//@   props C05 C03
+//@   sweep
+//@   mode nopanic=off
+//@   at[fwd] call ugm.QueueTracker.decreaseTrackedResource#1: assert arg0 == gt.queueTracker && arg1 == splitof(queuePath, ".") && arg2 == applicationID && arg3 == usage && arg4 == removeApp
+//@   at[answer] call ugm.QueueTracker.decreaseTrackedResource#1 after: assume ret == dectree(gt.queueTracker)
+//@   ensures[once] gt != nil ==> ncalls(ugm.QueueTracker.decreaseTrackedResource) == 1
+//@   ensures[answer] gt != nil ==> removeQT == dectree(gt.queueTracker)
+//@   ensures[nilsafe] gt == nil ==> !removeQT && ncalls(ugm.QueueTracker.decreaseTrackedResource) == 0
+//@   ensures[forget] gt != nil && removeApp ==> !(applicationID in gt.applications)
+//@   ensures[keep] gt != nil && !removeApp ==> (forall a string :: (a in gt.applications) == old(a in gt.applications) && gt.applications[a] == old(gt.applications[a]))
+
+// limits: a named or wild-card limit reaches the tracker tree with the values given, for this tracker's own kind; a
+// cleared limit is the zero limit and (for users) still respects the wild-card check flag
+//@ func (ut *UserTracker) setLimits(queuePath string, resource *resources.Resource, maxApps uint64, useWildCard bool, doWildCardCheck bool)
+//@   props C05
+//@   sweep
+//@   mode nopanic=off
+//@   at[fwd] call ugm.QueueTracker.setLimit#1: assert arg0 == ut.queueTracker && arg1 == splitof(queuePath, ".") && arg2 == resource && arg3 == maxApps && arg4 == useWildCard && arg5 == 1 && arg6 == doWildCardCheck
+//@   ensures[once] ncalls(ugm.QueueTracker.setLimit) == 1
+
+//@ func (ut *UserTracker) clearLimits(queuePath string, doWildCardCheck bool)
+//@   props C05
+//@   sweep
+//@   mode nopanic=off
+//@   at[fwd] call ugm.QueueTracker.setLimit#1: assert arg0 == ut.queueTracker && arg1 == splitof(queuePath, ".") && arg2 == nil && arg3 == 0 && !arg4 && arg5 == 1 && arg6 == doWildCardCheck
+//@   ensures[once] ncalls(ugm.QueueTracker.setLimit) == 1
+
+//@ func (gt *GroupTracker) setLimits(queuePath string, resource *resources.Resource, maxApps uint64)
+//@   props C05
+//@   sweep
+//@   mode nopanic=off
+//@   at[fwd] call ugm.QueueTracker.setLimit#1: assert arg0 == gt.queueTracker && arg1 == splitof(queuePath, ".") && arg2 == resource && arg3 == maxApps && !arg4 && arg5 == 2 && !arg6
+//@   ensures[once] ncalls(ugm.QueueTracker.setLimit) == 1
+
+//@ func (gt *GroupTracker) clearLimits(queuePath string)
+//@   props C05
+//@   sweep
+//@   mode nopanic=off
+//@   at[fwd] call ugm.QueueTracker.setLimit#1: assert arg0 == gt.queueTracker && arg1 == splitof(queuePath, ".") && arg2 == nil && arg3 == 0 && !arg4 && arg5 == 2 && !arg6
+//@   ensures[once] ncalls(ugm.QueueTracker.setLimit) == 1
+
+// questions: headroom and admission are asked of this tracker's own tree, for the path and application given, with
+// this tracker's own kind, and the tree's answer is the answer
+//@ func (ut *UserTracker) headroom(hierarchy []string) (hr *resources.Resource)
+//@   props C05
+//@   sweep
+//@   mode nopanic=off
+//@   at[fwd] call ugm.QueueTracker.headroom#1: assert arg0 == ut.queueTracker && arg1 == hierarchy && arg2 == 1
+//@   at[answer] call ugm.QueueTracker.headroom#1 after: assume ret == treehr(ut.queueTracker)
+//@   ensures[answer] ncalls(ugm.QueueTracker.headroom) == 1 && hr == treehr(ut.queueTracker)
+//@ spec abstract treehr(q *QueueTracker) *resources.Resource
+
+//@ func (gt *GroupTracker) headroom(hierarchy []string) (hr *resources.Resource)
+//@   props C05
+//@   sweep
+//@   mode nopanic=off
+//@   at[fwd] call ugm.QueueTracker.headroom#1: assert arg0 == gt.queueTracker && arg1 == hierarchy && arg2 == 2
+//@   at[answer] call ugm.QueueTracker.headroom#1 after: assume ret == treehr(gt.queueTracker)
+//@   ensures[answer] ncalls(ugm.QueueTracker.headroom) == 1 && hr == treehr(gt.queueTracker)
+
+//@ func (ut *UserTracker) canRunApp(hierarchy []string, applicationID string) (ok bool)
+//@   props C05
+//@   sweep
+//@   mode nopanic=off
+//@   at[fwd] call ugm.QueueTracker.canRunApp#1: assert arg0 == ut.queueTracker && arg1 == hierarchy && arg2 == applicationID && arg3 == 1
+//@   at[answer] call ugm.QueueTracker.canRunApp#1 after: assume ret == treecan(ut.queueTracker)
+//@   ensures[answer] ncalls(ugm.QueueTracker.canRunApp) == 1 && ok == treecan(ut.queueTracker)
+//@ spec abstract treecan(q *QueueTracker) bool
+
+//@ func (gt *GroupTracker) canRunApp(hierarchy []string, applicationID string) (ok bool)
+//@   props C05
+//@   sweep
+//@   mode nopanic=off
+//@   at[fwd] call ugm.QueueTracker.canRunApp#1: assert arg0 == gt.queueTracker && arg1 == hierarchy && arg2 == applicationID && arg3 == 2
+//@   at[answer] call ugm.QueueTracker.canRunApp#1 after: assume ret == treecan(gt.queueTracker)
+//@   ensures[answer] ncalls(ugm.QueueTracker.canRunApp) == 1 && ok == treecan(gt.queueTracker)
